@@ -83,7 +83,7 @@ def rand_attrs(r: random.Random, asn4: bool, ibgp: bool, want_nexthop: bool = Tr
     if r.random() < rich * 0.3:
         a['atomic'] = True
     if r.random() < rich * 0.3:
-        a['aggregator'] = (r.choice(ASN2 + (ASN4 if asn4 else [])), '192.0.2.200')
+        a['aggregator'] = (r.choice(ASN2 + ASN4), '192.0.2.200')  # a 4-byte AS goes to a 2-byte session as AS_TRANS + AS4_AGGREGATOR
     if r.random() < rich:
         a['communities'] = [(r.choice([0, 1, 65000, 65535]), r.choice([0, 1, 666, 65535])) for _ in range(r.choice([1, 2, 5, 40]))]
     if r.random() < rich * 0.5:
